@@ -321,7 +321,7 @@ def replay_kani(ov, res, prop, logdir):
     with Slot() as slot:
         cmd = kani_cmd(fqn, slot.dir, res.get("checks", "default"), res.get("flags", [])) + [
             "-Z", "concrete-playback", "--concrete-playback=inplace"]
-        run_capped(cmd, ov["lsm"], res["timeout"] * 2 + 300, max(32, res["mem_gb"] * 3), lf)
+        run_capped(cmd, ov["lsm"], res["timeout"] * 2 + 300, 48, lf)
     after = open(hf).read()
     m = re.search(r"fn (kani_concrete_playback_\w+)", after[len(before) - 200 if len(before) > 200 else 0:])
     failed = [c for c in res["parsed"]["failed_checks"] if c["status"] == "FAILURE"]
